@@ -82,6 +82,8 @@ impl Regex {
     /// Returns whether this regex matches the input.
     #[inline]
     pub fn is_match(&self, input: &[u8]) -> bool {
+        #[cfg(feature = "verif-hooks")]
+        crate::verif::yield_point("regex.is_match");
         self.regex.is_match(input)
     }
 }
